@@ -24,7 +24,7 @@ Record pdesc := mkPdesc {
 Record entry := mkEntry { e_pulse : pdesc; e_q : qspec; e_map : option (list (string * string)) }.
 
 Inductive err := ErrRemap | ErrSingleDim | ErrMultiDim | ErrDt | ErrClash | ErrN | ErrOmega | ErrCacheDiag
-               | ErrAddDim | ErrAddDup | ErrKey.
+               | ErrAddDim | ErrAddDup | ErrKey | ErrDupMap | ErrDupIds.
 
 Inductive src := FromPulse (blk idx : nat) | Additional (k : nat).
 
@@ -112,10 +112,15 @@ Fixpoint nat_str_aux (fuel n : nat) (acc : string) : string :=
   end.
 Definition nat_str (n : nat) : string := nat_str_aux (S n) n EmptyString.
 Definition suffix (qs : list nat) : string := fold_right (fun q acc => (nat_str q ++ acc)%string) EmptyString qs.
-Definition map_ids (ids : list string) (m : option (list (string * string))) (qs : list nat) : option (list string) :=
-  match m with
-  | Some mm => lookup_all mm ids
-  | None => Some (map (fun i => (i ++ "_" ++ suffix qs)%string) ids)
+(* _map_identifiers applied to _default_extend_mapping(ids, mapping, qubits): ValueError for a missing identifier
+   or for mapped identifiers that are not unique *)
+Definition map_ids (ids : list string) (m : option (list (string * string))) (qs : list nat) : err + list string :=
+  match (match m with
+         | Some mm => lookup_all mm ids
+         | None => Some (map (fun i => (i ++ "_" ++ suffix qs)%string) ids)
+         end) with
+  | None => inl ErrKey
+  | Some l => if nodup_str l then inr l else inl ErrDupMap
   end.
 
 (* ---------- parsing ---------- *)
@@ -182,13 +187,23 @@ Fixpoint cm_blocks (N : nat) (blocks : list (list nat)) (nns : list nat) (row : 
   | _, _ => []
   end.
 
-Fixpoint ids_of_blocks (get : pdesc -> list string) (bl : list (pdesc * list nat * option (list (string * string))))
-  : option (list string) :=
+(* identifiers pulse by pulse, control before noise, as the loops over the pulses do *)
+Fixpoint ids_of_blocks (bl : list (pdesc * list nat * option (list (string * string))))
+  : err + (list string * list string) :=
   match bl with
-  | [] => Some []
+  | [] => inr ([], [])
   | (p, qs, m) :: r =>
-      match map_ids (get p) m qs, ids_of_blocks get r with
-      | Some a, Some b => Some (a ++ b) | _, _ => None end
+      match map_ids (pd_cids p) m qs with
+      | inl e => inl e
+      | inr c =>
+        match map_ids (pd_nids p) m qs with
+        | inl e => inl e
+        | inr n => match ids_of_blocks r with
+                   | inl e => inl e
+                   | inr (cs, ns) => inr (c ++ cs, n ++ ns)
+                   end
+        end
+      end
   end.
 Fixpoint srcs_of_blocks (get : pdesc -> list string) (bl : list (pdesc * list nat * option (list (string * string)))) (k : nat)
   : list src :=
@@ -244,8 +259,8 @@ Definition extend (entries : list entry) (Narg : option nat) (dq : nat)
     | Some true => Some true
     end in
   match cd_res with None => Raise ErrCacheDiag | Some cd =>
-  match ids_of_blocks pd_cids blocks, ids_of_blocks pd_nids blocks with
-  | Some cids, Some nids0 =>
+  match ids_of_blocks blocks with
+  | inr (cids, nids0) =>
     let add_check : option (list string * list src) :=
       match additional with
       | None => Some ([], [])
@@ -256,6 +271,7 @@ Definition extend (entries : list entry) (Narg : option nat) (dq : nat)
     match add_check with None => Raise ErrAddDim | Some (aids, asrc) =>
     if existsb (fun a => existsb (String.eqb a) nids0) aids then Raise ErrAddDup else
     let nids := nids0 ++ aids in
+    if negb (nodup_str cids && nodup_str nids) then Raise ErrDupIds else
     let btypes := map pd_btype pulses in
     let basis := if forallb (String.eqb "Pauli") btypes then "Pauli"%string else "GGM"%string in
     let cidx := argsort cids in let nidx := argsort nids in
@@ -282,7 +298,7 @@ Definition extend (entries : list entry) (Narg : option nat) (dq : nat)
       (if pauli then cd || all_tp || cff else cd || cff)
       cff)
     end
-  | _, _ => Raise ErrKey
+  | inl e => Raise e
   end end end end end end.
 
 (* ---------- numeric assembly of the cached control matrix / filter function ---------- *)
